@@ -98,8 +98,9 @@ fn snapshot(root: &Path, skip: &Path, out: &mut Tree) {
         for e in rd.flatten() {
             let p = e.path();
             if p == skip {
-                // what is inside the destination is the writer's business, the destination itself must stay
-                out.insert(p.clone(), None);
+                // what is inside the destination is the writer's business, the destination itself must stay - a directory
+                let is_dir = std::fs::symlink_metadata(&p).map(|m| m.is_dir()).unwrap_or(false);
+                out.insert(p.clone(), if is_dir { None } else { Some(std::fs::read(&p).unwrap_or_default()) });
                 continue;
             }
             let md = match std::fs::symlink_metadata(&p) {
